@@ -63,3 +63,5 @@ declare_fields('SpecificOperandConfig', _config='cfg', _operands='list[Operand]'
 declare_fields('InstructionBase', _mnemonic='str', _default_endian='str', _registers='set[str]')
 declare_fields('InstructionSet', _instructions_config='cfg', _macros_config='cfg?', _instruction_mnemonics='set[str]',
                _macro_mnemonics='set[str]', __dict='dict[str,InstructionBase]')
+
+declare_fields('ExpressionNode', value='union')
